@@ -44,7 +44,13 @@ func c01Body(edge bool, maxN int) mc.Body {
 		pts := make([]data.Point, n)
 		// 4 timestamp assignments: small / int64 extremes, increasing or decreasing with the point index
 		// (the other fields are tied to the index, so both "newer point has the larger tombstone/value" and the opposite occur)
-		tv := x.Choose(4, "ts-variant")
+		tv := 0
+		if n >= 4 {
+			// thorough, 4 points: the two assignments that differ most (extremes rising, small falling)
+			tv = []int{1, 2}[x.Choose(2, "ts-variant")]
+		} else {
+			tv = x.Choose(4, "ts-variant")
+		}
 		tsv := c01TsA
 		if tv%2 == 1 {
 			tsv = c01TsB
